@@ -45,13 +45,14 @@ Ast(src) == [cond |-> CondAst(src), ids |-> src.ids]
 TextOk(src) == ~IsErr(CondAst(src))
 
 (* which documents of the case have a language-level oracle *)
-HasOracle(c) == "oracle" \in DOMAIN c /\ c.oracle
+HasOracle(c) == "oracle" \in DOMAIN c /\ c.oracle /\ "src" \in DOMAIN c
 WellTyped(c) == "wt" \in DOMAIN c /\ c.wt
 
 (* Rule::from_str / from_value.  Loading never panics (C04); a source that  *)
 (* is well typed by construction loads (C02/C05); the spec is silent on     *)
 (* other sources (ok or err).                                               *)
-LoadOutcomes(c) == IF IsText(c.src) /\ "bodies_ok" \in DOMAIN c /\ c.bodies_ok
+LoadOutcomes(c) == IF "src" \notin DOMAIN c THEN {"ok", "err"}
+                   ELSE IF IsText(c.src) /\ "bodies_ok" \in DOMAIN c /\ c.bodies_ok
                    THEN (IF TextOk(c.src) THEN {"ok"} ELSE {"err"})     \* the grammar decides
                    ELSE IF WellTyped(c) THEN {"ok"} ELSE {"ok", "err"}
 Load(out) == /\ phase = "idle"
